@@ -309,3 +309,4 @@ also("C16", "Also: parser::parse enables the footer-string extensions for Versio
 also("C16", "Also (error discipline): in validate(), TimeZone::new and parser::parse no path on which an in-crate Result-returning callee came back Err ends in acceptance.")
 also("C18", "Also: a ':'-prefixed TZ value is never read as a POSIX rule (where the colon test holds no path reaches TransitionRule::from_tz_string).")
 also("C18", "Also: wherever the zone cache is built (creation and refresh), the Source remembered for the change test and the zone loaded come from one and the same TZ value.")
+also("C14", "Also: in the timestamp branch of to_naive_datetime_with_offset the year / ordinal / hour / minute setters read one and the same date-time term on every path (469 paths).")
